@@ -46,6 +46,8 @@ type c16Case struct {
 	Keys    []string `json:"keys,omitempty"`
 	Backend string   `json:"backend,omitempty"`
 	Feat    []string `json:"features,omitempty"`
+	DelFail int      `json:"fail_delete_no,omitempty"` // S3: refuse the n-th DELETE request
+	DelHow  string   `json:"fail_delete_how,omitempty"`
 	What    string   `json:"what,omitempty"`
 }
 
@@ -185,6 +187,17 @@ func c16GenTree(rng *vh.Rand) *c16Gen {
 		}
 	}
 	pick := func() ch { return cs[rng.Intn(k)] }
+	strayObj := func(c ch, unc bool) []byte {
+		switch rng.Intn(3) {
+		case 0:
+			g.feat["stray-garbage"] = true
+			return rng.Bytes(1 + rng.Intn(40))
+		case 1:
+			g.feat["stray-foreign-object"] = true
+			return obj(cs[(rng.Intn(k)+1)%k], unc)
+		}
+		return obj(c, unc)
+	}
 	nx := rng.Intn(7)
 	for j := 0; j < nx; j++ {
 		c := pick()
@@ -210,12 +223,12 @@ func c16GenTree(rng *vh.Rand) *c16Gen {
 		case 5:
 			g.add(".tmp-cacnk.d", "d", nil, "tmp-named-dir")
 			g.add(".tmp-cacnk.d/x", "f", []byte("x"), "tmp-named-dir")
-		case 6: // chunk name in a wrong directory
-			g.add("0000/"+c.id+ext(unc), "f", obj(c, unc), "stray-wrong-dir")
+		case 6: // chunk name in a wrong directory: the right object, garbage, or another chunk's valid object
+			g.add([]string{"0000", "backup", c.id[:3] + "0"}[rng.Intn(3)]+"/"+c.id+ext(unc), "f", strayObj(c, unc), "stray-wrong-dir")
 		case 7:
-			g.add(c.id[:4]+"/sub/"+c.id+ext(unc), "f", obj(c, unc), "stray-nested")
+			g.add(c.id[:4]+"/sub/"+c.id+ext(unc), "f", strayObj(c, unc), "stray-nested")
 		case 8:
-			g.add(c.id+ext(unc), "f", obj(c, unc), "stray-root")
+			g.add(c.id+ext(unc), "f", strayObj(c, unc), "stray-root")
 		case 9:
 			g.add(lsUpper(c.id[:4])+"/"+lsUpper(c.id)+ext(unc), "f", obj(c, unc), "upper-case")
 		case 10:
@@ -735,7 +748,7 @@ func runC16(a vh.Args, o *vh.Oracle, r *vh.Result) error {
 		if err := c16Prune(a, o, r, c); err != nil {
 			return err
 		}
-		v := &c16Case{Kind: "verify", Unc: rng.Bool(), Tree: g.ents, Repair: rng.Bool(), N: []int{1, 2, 8}[rng.Intn(3)], Feat: lsFeats(g.feat)}
+		v := &c16Case{Kind: "verify", Unc: rng.Bool(), Tree: g.ents, Repair: rng.Bool(), N: []int{1, 2, 3, 4, 8}[rng.Intn(5)], Feat: lsFeats(g.feat)}
 		if thorough && os.Getenv("VH_DESYNC") != "" && k%20 == 1 {
 			v.CLI = true
 		}
